@@ -55,6 +55,7 @@ func init() {
 	c11Ops = append(c11Ops,
 		c11Op{name: "SetPageMargins", kind: "margins"},
 		c11Op{name: "SetDifferentFirstPage(true)", kind: "titlepg"},
+		c11Op{name: "rejected page-setting calls: SetPageOrientation(diagonal), SetCustomPageSize(5,5), SetPageMargins(-1,0,0,0)", kind: "badpage"},
 		c11Op{name: "AddImageFromData", kind: "image"},
 		c11Op{name: "AddListItem", kind: "list"},
 		c11Op{name: "AddParagraph", kind: "para"},
@@ -180,6 +181,15 @@ func (i *c11Inst) Apply(op int) (string, []rep.Violation) {
 			}
 		case "margins":
 			err = i.doc.SetPageMargins(10, 10, 10, 10)
+		case "badpage":
+			// each of these is refused; a refused call leaves the header/footer definitions alone
+			e1 := i.doc.SetPageOrientation(document.PageOrientation("diagonal"))
+			e2 := i.doc.SetCustomPageSize(5, 5)
+			e3 := i.doc.SetPageMargins(-1, 0, 0, 0)
+			if e1 == nil || e2 == nil || e3 == nil {
+				viol = append(viol, rep.Violation{Sig: "invalid-page-request-accepted", Clause: "error", What: fmt.Sprintf("diagonal orientation / 5x5 mm page / negative margin: errors %v %v %v", e1, e2, e3)})
+			}
+			i.lastNT = true
 		case "titlepg":
 			i.doc.SetDifferentFirstPage(true)
 		case "image":
